@@ -1036,6 +1036,8 @@ class KeepFloatEncoder(json.JSONEncoder):
 
 
 def replay(obj):
+    if obj.get("kind") in ("no-failing-input-found", "correspondence") or obj.get("correspondence"):
+        return vlib.replay_correspondence(obj)
     print(json.dumps(obj, indent=1)[:6000])
     r = obj.get("replay", obj)
     if r.get("op") == "staged_full":
